@@ -1247,3 +1247,21 @@ package rtcp
 //@   loop 2
 //@     invariant 0 <= iter() && iter() <= len(t.RecvDeltas)
 //@     decreases len(t.RecvDeltas) - iter()
+
+// ===================================================================================================
+// transport_layer_nack.go (helpers)
+// ===================================================================================================
+
+//@ func specPairsCover(ps []NackPair, n int, x uint16) (result bool)
+//@   rec
+
+//@ func specMember(s []uint16, n int, x uint16) (result bool)
+//@   rec
+
+//@ func NackPairsFromSequenceNumbers(sequenceNumbers []uint16) (pairs []NackPair)
+//@   safety[C12]
+//@   ensures[C12] exact: forall x uint16 :: specPairsCover(pairs, len(pairs), x) <==> specMember(sequenceNumbers, len(sequenceNumbers), x)
+//@   loop 1
+//@     invariant 1 <= i && i <= len(sequenceNumbers) && nackPair != nil
+//@     invariant[C12] forall x uint16 :: (specPairsCover(pairs, len(pairs), x) || specPairCovers(*nackPair, x)) <==> specMember(sequenceNumbers, i, x)
+//@     decreases len(sequenceNumbers) - i
